@@ -151,6 +151,8 @@ class Events:
             r = self._role(role)
             if r is not None and (path == r.path or rpath == r.path):
                 evs.append(dict(ev=ev, fallible=(ev in ('K', 'A', 'HDR')), callee=r.qual))
+            elif r is not None and ev == 'HDR' and any(path == h.path or rpath == h.path for h in getattr(self.A, 'hdr_helpers', ()) if fn is not r):
+                evs.append(dict(ev=ev, fallible=False, callee=r.qual))
         # P through a call: free / alloc / init role of Freelist on the shared (guarded) free list
         for role in ('free-role', 'alloc-role', 'init-role'):
             r = self._role(role)
